@@ -128,7 +128,23 @@ impl Object for Font {
         };
         let _other = dict.clone();
         let data = match subtype {
-            FontType::Type0 => FontData::Type0(Type0Font::from_dict(dict, resolve)?),
+            FontType::Type0 => {
+                // The descendant of a composite font is a CIDFont, never another composite font (ISO 32000-1 9.7.1).
+                // Refusing that here also ends chains of directly nested font dictionaries (an array object holding a
+                // direct Type0 dictionary whose /DescendantFonts is that array again), which no load guard sees.
+                if let Some(Ok(Primitive::Array(descendants))) = dict.get("DescendantFonts").map(|p| p.clone().resolve(resolve)) {
+                    for d in descendants {
+                        if let Ok(Primitive::Dictionary(d)) = d.resolve(resolve) {
+                            if let Some(Ok(Primitive::Name(subtype))) = d.get("Subtype").map(|p| p.clone().resolve(resolve)) {
+                                if subtype.as_str() == "Type0" {
+                                    bail!("the descendant of a Type0 font is a Type0 font");
+                                }
+                            }
+                        }
+                    }
+                }
+                FontData::Type0(Type0Font::from_dict(dict, resolve)?)
+            }
             FontType::Type1 => FontData::Type1(TFont::from_dict(dict, resolve)?),
             FontType::TrueType => FontData::TrueType(TFont::from_dict(dict, resolve)?),
             FontType::CIDFontType0 => FontData::CIDFontType0(CIDFont::from_dict(dict, resolve)?),
